@@ -219,7 +219,15 @@ func buildTarget(rt *rapid.T) target {
 		rr := newRR(bottom)
 		must(rr.UpsertServer(mustURL("http://a")))
 		must(rr.UpsertServer(mustURL("http://b"), roundrobin.Weight(2)))
-		return target{name: kind, h: rr, draw: func(rt *rapid.T) op { return balancerOps(rt, rr, rr, rr) }}
+		// a second balancer from the same constructor is used next to it: two instances share nothing
+		rr2 := newRR(bottom)
+		must(rr2.UpsertServer(mustURL("http://n1")))
+		return target{name: kind, h: rr, draw: func(rt *rapid.T) op {
+			if rapid.IntRange(0, 3).Draw(rt, "on-neighbour") == 0 {
+				return balancerOps(rt, rr2, rr2, rr2)
+			}
+			return balancerOps(rt, rr, rr, rr)
+		}}
 	case "rebalancer":
 		rr := newRR(bottom)
 		rb, err := roundrobin.NewRebalancer(rr, roundrobin.RebalancerBackoff(time.Millisecond), roundrobin.RebalancerLogger(simkit.SlowLogger{}), roundrobin.RebalancerDebug(true))
